@@ -298,6 +298,21 @@ where
     MS: Fn() -> BoxedStrategy<C> + Sync,
     F: Fn(&C) -> CheckResult + Sync,
 {
+    explore_net(ctx, ev, cfg, None, make_strategy, check)
+}
+
+thread_local! {
+    static CHILD_NETWORK: std::cell::RefCell<Option<String>> = const { std::cell::RefCell::new(None) };
+}
+
+/// like `explore`, with the worker processes configured for another network (CONFIG is process-global)
+pub fn explore_net<C, MS, F>(ctx: &Ctx, ev: &mut Evidence, cfg: &PartCfg, network: Option<&str>, make_strategy: MS, check: F) -> Vec<Found>
+where
+    C: std::fmt::Debug + Clone + Serialize + DeserializeOwned + Simplify + 'static,
+    MS: Fn() -> BoxedStrategy<C> + Sync,
+    F: Fn(&C) -> CheckResult + Sync,
+{
+    CHILD_NETWORK.with(|c| *c.borrow_mut() = network.map(String::from));
     if let Some((part, k, n, outfile, stopfile)) = worker_env() {
         if part == cfg.name {
             let per = (cfg.cases + n as u64 - 1) / n as u64;
@@ -380,6 +395,7 @@ fn spawn_and_merge(ctx: &Ctx, ev: &mut Evidence, cfg: &PartCfg) -> Vec<Found> {
             .arg(ctx.tier.name())
             .env("VERIF_WORKER", format!("{}|{}|{}|{}|{}", cfg.name, k, workers, outfile.display(), stopfile.display()))
             .env("VERIF_SEED", ctx.seed.to_string())
+            .envs(CHILD_NETWORK.with(|c| c.borrow().clone()).map(|n| ("VERIF_NETWORK".to_string(), n)))
             .stdout(std::process::Stdio::null())
             .spawn()
             .expect("spawn worker");
